@@ -18,6 +18,7 @@ import (
 
 func init() {
 	commands["sched-rec"] = cmdSchedRec
+	commands["sched-rec-overlap"] = cmdSchedRecOverlap
 	streams["sched-rec"] = streamSchedRec
 }
 
@@ -204,8 +205,85 @@ func cmdSchedRec(o *Out, line string, f []string) {
 	o.count("sched-rec-" + kind)
 }
 
+// sched-rec-overlap <kind> <G> <M> <tick us> <seed>
+// G goroutines issue M IncOperations(1) each WHILE the main goroutine runs test cycles (BeginIteration,
+// EndIteration, EndTest) as fast as it can; after the writers have finished, one more cycle.  Every increment is
+// then in exactly one cycle: the values persisted last in each cycle add up to the number of increments issued.
+func cmdSchedRecOverlap(o *Out, line string, f []string) {
+	kind := f[0]
+	G, M, tickUs, seed := int(atoi64(f[1])), int(atoi64(f[2])), int(atoi64(f[3])), atoi64(f[4])
+	verifhook.Set(nil)
+	if seed != 0 {
+		verifhook.Perturb(seed, 30)
+	}
+	coll := &opsCollector{}
+	ctx, cancel := context.WithCancel(context.Background())
+	defer cancel()
+	var rec events.Recorder
+	switch kind {
+	case "interval":
+		rec = events.NewIntervalRecorder(ctx, coll, time.Duration(tickUs)*time.Microsecond)
+	case "sync":
+		rec = events.NewSynchronizedRecorder(events.NewRawRecorder(coll))
+	default:
+		panic(kind)
+	}
+	var wg sync.WaitGroup
+	var done int32
+	start := make(chan struct{})
+	for g := 0; g < G; g++ {
+		wg.Add(1)
+		go func(g int) {
+			defer wg.Done()
+			<-start
+			for m := 0; m < M; m++ {
+				rec.IncOperations(1)
+			}
+		}(g)
+	}
+	go func() { wg.Wait(); atomic.StoreInt32(&done, 1) }()
+	var sum int64
+	endErrs, cycles := 0, 0
+	cycle := func() {
+		rec.BeginIteration()
+		rec.EndIteration(time.Microsecond)
+		if err := rec.EndTest(); err != nil {
+			endErrs++
+		}
+		coll.mu.Lock()
+		if n := len(coll.ops); n > 0 {
+			sum += coll.ops[n-1]
+		}
+		coll.ops = coll.ops[:0]
+		coll.mu.Unlock()
+		cycles++
+	}
+	close(start)
+	for atomic.LoadInt32(&done) == 0 && cycles < 100000 {
+		cycle()
+	}
+	wg.Wait()
+	cycle()
+	verifhook.Perturb(0, 0)
+	if sum != int64(G*M) {
+		o.violation(line, "the counters persisted last in each test cycle do not add up to the increments issued while the cycles ran",
+			map[string]interface{}{"persisted": sum, "issued": G * M, "cycles": cycles})
+	}
+	o.emit(line, fmt.Sprintf("ok total=%d errs=%d", sum, endErrs))
+	o.nontrivial(line)
+	o.count("sched-rec-overlap-" + kind)
+}
+
 func streamSchedRec(o *Out, rng *rand.Rand, thorough bool, _ []string) {
 	var lines []string
+	no := 12
+	if thorough {
+		no = 200
+	}
+	for i := 0; i < no; i++ {
+		lines = append(lines, fmt.Sprintf("sched-rec-overlap %s %d %d %d %d", []string{"sync", "interval"}[i%2], 2+rng.Intn(7), 200+rng.Intn(3000),
+			[]int{50, 100, 500}[rng.Intn(3)], []int64{0, 1 + rng.Int63n(1<<30)}[rng.Intn(2)]))
+	}
 	n := 40
 	if thorough {
 		n = 600
